@@ -167,7 +167,7 @@ def generic_jobs(list_configs, family, recls, pattern, variant, mode, execs, see
     return jobs
 
 
-def plan_reclaim(prop, pattern, execs_quick, execs_thorough, rule, gate_counters):
+def plan_reclaim(prop, pattern, execs_quick, execs_thorough, rule, gate_counters, weak_slice=False):
     recls = R8 + RPLUS
 
     def targets(tier):
@@ -175,7 +175,11 @@ def plan_reclaim(prop, pattern, execs_quick, execs_thorough, rule, gate_counters
 
     def jobs(tier, seed, list_configs):
         execs = execs_quick if tier == "quick" else execs_thorough
-        return generic_jobs(list_configs, "reclaim", recls, pattern, "xrt-prod", "sc", execs, seed)
+        jobs = generic_jobs(list_configs, "reclaim", recls, pattern, "xrt-prod", "sc", execs, seed)
+        if weak_slice:
+            # the property quantifies over weak executions as well: a slice with a staleness window of 64 steps
+            jobs += generic_jobs(list_configs, "reclaim", recls, pattern, "xrt-prod", "weak", max(100, execs // 10), seed + 7, window=64, per_job=2)
+        return jobs
 
     def gates(tier, agg, counters, per_config, distinct):
         msgs = []
@@ -195,9 +199,9 @@ _RECLAIM_RULE = ("each evaluation = one generated protocol-conforming client pro
                  "threads that start after another thread exited; publish / unlink+reclaim / acquire / acquire_if_equal / copy / move / swap / reset / "
                  "region_guard / deref) run under one seeded schedule, followed by a public-API-only flush by fresh threads; lifetime registry: guard table x "
                  "deleter events; distinct_nontrivial = distinct (program, call/return order, results) hashes with overlapping operations of different threads")
-PLANS["C01"] = plan_reclaim("C01", r"^proto_", 2500, 20000, _RECLAIM_RULE,
-                            {"destroyed_while_other_thread_guards": 1000, "destroyed_in_history": 10000, "guards_registered": 10000})
-PLANS["C02"] = plan_reclaim("C02", r"^proto_", 2500, 20000,
+PLANS["C01"] = plan_reclaim("C01", r"^proto_", 6000, 40000, _RECLAIM_RULE,
+                            {"destroyed_while_other_thread_guards": 1000, "destroyed_in_history": 10000, "guards_registered": 10000}, weak_slice=True)
+PLANS["C02"] = plan_reclaim("C02", r"^proto_", 6000, 40000,
                             _RECLAIM_RULE + "; census after the flush: every retired node destroyed exactly once by the deleter instance passed to reclaim()",
                             {"destroyed_by_other_after_retirer_exit": 100, "destroyed_in_history": 10000})
 PLANS["C15"] = plan_reclaim("C15", r"^proto_", 1500, 20000,
@@ -225,10 +229,10 @@ def plan_c03():
 
     def jobs(tier, seed, list_configs):
         jobs = []
-        windows = [16] if tier == "quick" else [16, 64, 256]
+        windows = [16, 64] if tier == "quick" else [16, 64, 256]
         for w in windows:
-            eq = 150 if tier == "quick" else 1500
-            er = 400 if tier == "quick" else 4000
+            eq = 100 if tier == "quick" else 1500
+            er = 300 if tier == "quick" else 4000
             jobs += queue_jobs(list_configs, R8, r".", "xrt-prod", "weak", eq, seed + w, norecl=True, window=w, per_job=3)
             jobs += queue_jobs(list_configs, fams_tsan[0][1], r".", "xrt-tsan", "weak", eq, seed + w + 1, norecl=True, window=w, per_job=3)
             jobs += generic_jobs(list_configs, "reclaim", R8 + RPLUS, r"^proto_", "xrt-prod", "weak", er, seed + w, window=w, per_job=2)
